@@ -346,6 +346,9 @@ class Simulator(EventProducer, SimulatorInterface, Generic[TIME]):
         running and fires the right events."""
         if self.is_starting_or_running():
             raise DSOLError("cannot start a running simulator")
+        if self._run_state == RunState.STOPPING:
+            # the run() thread is still running, see RunState.STOPPING
+            raise DSOLError("cannot start a simulator that is still stopping")
         if self._replication == None:
             raise DSOLError("no replication details")
         if not self.is_initialized():
@@ -406,6 +409,9 @@ class Simulator(EventProducer, SimulatorInterface, Generic[TIME]):
         an exception will be thrown, and no event will be fired."""
         if self.is_starting_or_running():
             raise DSOLError("cannot start a running simulator")
+        if self._run_state == RunState.STOPPING:
+            # the run() thread is still running, see RunState.STOPPING
+            raise DSOLError("cannot step a simulator that is still stopping")
         if not self.is_initialized():
             raise DSOLError("cannot start an uninitialized simulator")
         if (self._replication_state != ReplicationState.INITIALIZED \
